@@ -182,8 +182,12 @@ def prop(spec, rec):
         U[idx] = min(32.0, float(np.sum(U[idx])) / len(idx))
         return U
 
+    lim_before = np.array(net.magnitudes, dtype=float)
+    calls = [0]
+
     def feas(S):
         S = np.asarray(S, dtype=float)
+        calls[0] += 1
         if multi:
             # a two-period schedule: the even allocation first, then S (equal totals)
             return bool(net.is_feasible(np.column_stack([companion(S), S]), linear=linear))
@@ -265,6 +269,19 @@ def prop(spec, rec):
         if feas(R):
             worst = max(worst, judge_all(R, "frontier schedule snapped to allowable levels"))
             labels.add("snapped_accepted")
+    # a long horizon (a month at 5-minute steps): nothing for thousands of periods, then an
+    # overload in the last hours - whatever the network reports feasible is judged column by column
+    if spec.get("long_horizon"):
+        T = spec["long_horizon"]
+        tail = np.minimum(np.where(S > 0, S * 1.5 + 4.0, 0.0), 32.0)
+        M = np.zeros((n, T))
+        M[:, T - spec["long_tail"] :] = tail.reshape(-1, 1)
+        if bool(net.is_feasible(M, linear=linear)):
+            worst = max(worst, judge(spec, topo, ids, tail, "last %d of %d periods" % (spec["long_tail"], T)))
+        labels.add("horizon_over_4096_periods")
+    # asking does not change what is being asked about
+    lim_after = np.array(net.magnitudes, dtype=float)
+    require(np.array_equal(lim_before, lim_after), "query_changed_the_network_limits", lambda: "constraint limits moved by up to %r A over %d feasibility queries" % (float(np.max(np.abs(lim_after - lim_before))), calls[0]))
     hypothesis.target(min(worst, 1.5), label="power_over_capacity")
     rec.maximum("max_power_over_capacity_" + spec["site"] + "_" + spec["group"], worst)
     if worst >= 0.9:
@@ -326,6 +343,8 @@ def cases(draw):
         "evse_voltage": draw(st.sampled_from([208, 208, 208, 240, 120])),
         "prior_lenient": draw(st.integers(0, 3)) == 0,
         "multi": draw(st.integers(0, 2)) == 0,
+        "long_horizon": draw(st.sampled_from([None, None, None, None, None, 4097, 5000, 8640])),
+        "long_tail": draw(st.sampled_from([1, 12, 60])),
     }
 
 
@@ -374,7 +393,7 @@ def prop_structure(spec, rec):
 
 def subchecks(tier):
     return [
-        Given("frontier", cases(), prop, quick=320, thorough=30000, floors={"near_rating": 0.2, "at_rating": 0.1, "linear": 0.1, "real_evse": 0.12, "lenient_query_first": 0.1, "deprecated_alias_entry": 0.02, "two_period_schedule_equal_totals": 0.1, "huge_transformer_capacity": 0.03}, jobs_quick=8),
+        Given("frontier", cases(), prop, quick=320, thorough=30000, floors={"near_rating": 0.2, "at_rating": 0.1, "linear": 0.1, "real_evse": 0.12, "lenient_query_first": 0.1, "deprecated_alias_entry": 0.02, "two_period_schedule_equal_totals": 0.1, "huge_transformer_capacity": 0.03, "horizon_over_4096_periods": 0.04}, jobs_quick=8),
         Exhaustive("structure", structure_items, prop_structure, jobs_quick=2),
     ]
 
